@@ -292,6 +292,8 @@ _add("C07", "Session 5 (FITS): the WHOLE file is modelled byte for byte (Model/F
             "fits_file_blocks (length multiple of 2880), fits_file_structure (the reader's unsigned-value parser applied to the NAXIS1 / NAXIS2 cards returns the word size and twice the number of ranges, their product is exactly the number of data bytes written, and those bytes decode to exactly the ranges), fits_nuniq_file; "
             "tie: length + FNV-1a of every real file written (in-memory and lazy sources, 3 quantities x 3 widths; NUNIQ files) = the model's file (ops fits_file, fits_nuniq_file), so any change to a header card is reported.")
 _add("C11", "Session 5 (FITS): fits_st_file_roundtrip: the whole ST FITS file (header cards with MOCDIM TIME.SPACE and both depths, flagged rows, padding) is made of 2880-byte blocks, declares NAXIS2 = twice the number of ranges, and the rows extracted from its data bytes are decoded to exactly the elements written; tie: the real file byte for byte (op st_fits_file).")
+_add("C05", "Session 5 (normal form): cells_maximal — for every valid MOC no cell of the cell view of depth >= 1 has its parent inside the MOC (the cells are the LARGEST aligned cells: four siblings never stand for their parent), proved from the local maximality of every step of the greedy iterator (nextCellK_maximal: trailing zeros / length bounds as computed) "
+            "and a walk over greedy tiles (gtiles_maximal), with the gaps of a canonical range list on both sides; with cells_cover this characterises the normal form independently of the algorithm. The NUNIQ iterator is compared value by value with it (r_nuniq).")
 _add("C20", "After the bug hunt the four descent theorems carry the STRICT inequality of the property (a threshold exactly on a sub-cell boundary cuts nothing and is met exactly; the code was off by a whole piece, repaired b3d1506; the model has the guards "
             "of the repaired code and the reverse lower descent recurses into itself, d3d6aa3), the harness judges the implementation with the exact sum of the pieces really cut, thresholds on every quarter / finest-piece boundary in both density orders are generated, "
             "and the sky-map reader is driven with skipped, UNSEEN and NaN pixels against the model (repaired 655082e). The whole-selection theorem selection_mass_bracket carries the strict inequality too (third conjunct; equality when no boundary cell is descended into).")
